@@ -39,6 +39,9 @@ MUTS = {
  "alias-dotdot-guard": ("src/mod_alias.c", "        if (*s == '.') ++s;\n        if (*s == '/' || *s == '\\0') {", "        if (*s == '.') ++s;\n        if (*s == '/') {", ["C02"]),
  "plain-pw-prefix": ("src/mod_authn_file.c", "rc = ck_memeq_const_time(BUF_PTR_LEN(tb), pw, strlen(pw)) ? 0 : -1;", "rc = (buffer_clen(tb) >= strlen(pw) && 0 == memcmp(tb->ptr, pw, strlen(pw))) ? 0 : -1;", ["C16"]),
  "ws-before-colon": ("src/request.c", "        if (colon[-1] == ' ' || colon[-1] == '\\t') {\n            if (http_header_strict) {", "        if (colon[-1] == ' ' || colon[-1] == '\\t') {\n            if (0) {", ["C01"]),
+ "status-header-passed": ("src/http-header-glue.c", "                continue; /* do not send Status to client */", "                /* do not send Status to client */", ["C10"]),
+ "location-302": ("src/http-header-glue.c", "    if (0 == r->http_status && light_btst(r->resp_htags, HTTP_HEADER_LOCATION)){\n        r->http_status = 302;", "    if (0 == r->http_status && light_btst(r->resp_htags, HTTP_HEADER_LOCATION)){\n        r->http_status = 200;", ["C10"]),
+ "backend-close-ignored": ("src/http-header-glue.c", "                                               CONST_STR_LEN(\"close\")))\n                r->keep_alive = 0;\n            break;\n          case HTTP_HEADER_CONTENT_TYPE:", "                                               CONST_STR_LEN(\"close\")))\n                r->keep_alive = r->keep_alive;\n            break;\n          case HTTP_HEADER_CONTENT_TYPE:", ["C10", "C04"]),
  "else-link": ("src/configparser.y", "    C->prev = B;\n    B->next = C;\n    A = C;", "    C->prev = B;\n    A = C;", ["C14"]),
 }
 
